@@ -11,6 +11,7 @@ import (
 	"context"
 	"fmt"
 	"runtime"
+	"strings"
 	"sync"
 	"sync/atomic"
 	"time"
@@ -21,11 +22,51 @@ import (
 
 var overBound atomic.Int64
 
+var (
+	stuckOps  atomic.Int64
+	stuckMu   sync.Mutex
+	stuckWhat string
+)
+
 type res struct {
 	nkeys, held, qc int
+	entries         int
 	ops             map[string]int
 	heapDelta       int64
 	retained        []string
+}
+
+// keyOf: distinct keys of many shapes - short, exactly at and around the usual size limits
+// (127/128/129, 255/256/257 bytes), very long, non-ASCII, with separators.
+func keyOf(prefix string, i int) string {
+	base := fmt.Sprintf("%s%d", prefix, i)
+	pad := func(n int) string {
+		if len(base) >= n {
+			return base
+		}
+		return base + "/" + strings.Repeat("x", n-len(base)-1)
+	}
+	switch i % 11 {
+	case 1:
+		return pad(127)
+	case 2:
+		return pad(128)
+	case 3:
+		return pad(129)
+	case 4:
+		return pad(255)
+	case 5:
+		return pad(257)
+	case 6:
+		return pad(1000)
+	case 7:
+		return pad(70000)
+	case 8:
+		return base + "/ключ/鍵/🔑"
+	case 9:
+		return base + " with spaces\tand\x00control"
+	}
+	return base
 }
 
 func oneCase(r *common.Rng, nkeys int, measureHeap bool) res {
@@ -41,8 +82,8 @@ func oneCase(r *common.Rng, nkeys int, measureHeap bool) res {
 	for i := range kinds {
 		kinds[i] = r.Intn(14)
 	}
-	common.Parallel(nkeys, 16, func(i int) {
-		key := fmt.Sprintf("k%d", i)
+	keyOp := func(i int) {
+		key := keyOf("k", i)
 		ctx := context.Background()
 		name := ""
 		switch kinds[i] {
@@ -145,18 +186,33 @@ func oneCase(r *common.Rng, nkeys int, measureHeap bool) res {
 		omu.Lock()
 		ops[name]++
 		omu.Unlock()
+	}
+	common.Parallel(nkeys, 16, func(i int) {
+		if stuckOps.Load() > 0 {
+			return // a lock call never returned: stop the history, the case is reported as such
+		}
+		fin := make(chan struct{})
+		go func() { defer close(fin); keyOp(i) }()
+		select {
+		case <-fin:
+		case <-time.After(5 * time.Second):
+			stuckOps.Add(1)
+			stuckMu.Lock()
+			stuckWhat = fmt.Sprintf("history kind %d on a key of %d bytes", kinds[i], len(keyOf("k", i)))
+			stuckMu.Unlock()
+		}
 	})
 	// keys left in use on purpose
 	held := r.Intn(6)
 	var ids []string
 	for i := 0; i < held; i++ {
-		id, _ := l.Lock(context.Background(), fmt.Sprintf("held%d", i), 30*time.Second)
+		id, _ := l.Lock(context.Background(), keyOf("held", i), 30*time.Second)
 		ids = append(ids, id)
 	}
 	waiterCtx, cancelWaiter := context.WithCancel(context.Background())
 	waiterDone := make(chan struct{})
 	if held > 0 {
-		go func() { l.Lock(waiterCtx, "held0", 30*time.Second); close(waiterDone) }()
+		go func() { l.Lock(waiterCtx, keyOf("held", 0), 30*time.Second); close(waiterDone) }()
 	} else {
 		close(waiterDone)
 	}
@@ -166,12 +222,13 @@ func oneCase(r *common.Rng, nkeys int, measureHeap bool) res {
 		wait = 150 * time.Millisecond // residue already seen twice in this run: do not wait it out every time
 	}
 	deadline := time.Now().Add(wait)
-	for lock.QueueCount(l) > held && time.Now().Before(deadline) {
+	for (lock.QueueCount(l) > held || lock.StateEntries(l) > 3*held) && time.Now().Before(deadline) {
 		time.Sleep(2 * time.Millisecond)
 	}
 	time.Sleep(5 * time.Millisecond)
 	qc := lock.QueueCount(l)
-	if qc > held {
+	entries := lock.StateEntries(l)
+	if qc > held || entries > 3*held {
 		overBound.Add(1)
 	}
 	var retained []string
@@ -179,13 +236,13 @@ func oneCase(r *common.Rng, nkeys int, measureHeap bool) res {
 		"lock_dead_ctx_free_key", "lock_dead_ctx_held_key", "unlock_never_locked_key", "duplicate_unlock", "late_unlock_after_ttl",
 		"unlock_wrong_key", "ttl_zero_then_unlock", "dead_ctx_then_relock_then_duplicate_unlock", "ttl_and_cancel_then_late_unlocks"}
 	for i := 0; i < nkeys && len(retained) < 8 && qc > held; i++ {
-		for _, k := range []string{fmt.Sprintf("k%d", i), fmt.Sprintf("k%d-other", i)} {
+		for _, k := range []string{keyOf("k", i), keyOf("k", i) + "-other"} {
 			if n, has := lock.QueueLen(l, k); has {
-				retained = append(retained, fmt.Sprintf("%s (history: %s; callers queued now: %d)", k, opNames[kinds[i]], n))
+				retained = append(retained, fmt.Sprintf("%.60s (len %d; history: %s; callers queued now: %d)", k, len(k), opNames[kinds[i]], n))
 			}
 		}
 	}
-	out := res{nkeys: nkeys, held: held, qc: qc, ops: ops, retained: retained}
+	out := res{nkeys: nkeys, held: held, qc: qc, entries: entries, ops: ops, retained: retained}
 	if measureHeap {
 		runtime.GC()
 		runtime.ReadMemStats(&m1)
@@ -194,7 +251,7 @@ func oneCase(r *common.Rng, nkeys int, measureHeap bool) res {
 	cancelWaiter()
 	<-waiterDone
 	for i, id := range ids {
-		l.Unlock(fmt.Sprintf("held%d", i), id)
+		l.Unlock(keyOf("held", i), id)
 	}
 	runtime.KeepAlive(l)
 	return out
@@ -221,12 +278,19 @@ func main() {
 			}
 		}
 		r := oneCase(rng.Fork(fmt.Sprintf("case%d", i)), nkeys, i == ncases-1)
-		d := map[string]interface{}{"kind": "residue", "distinct_keys": r.nkeys, "keys_left_locked": r.held, "queue_objects_after_quiescence": r.qc, "ops": r.ops, "keys_with_retained_queue_object(first 8)": r.retained}
+		d := map[string]interface{}{"kind": "residue", "distinct_keys": r.nkeys, "keys_left_locked": r.held, "queue_objects_after_quiescence": r.qc, "entries_in_all_containers_of_the_lock_after_quiescence(reflection)": r.entries, "ops": r.ops, "keys_with_retained_queue_object(first 8)": r.retained}
 		if i == ncases-1 {
 			d["heap_delta_bytes(reported only)"] = r.heapDelta
 			run.Meta.Extra["heap_delta_bytes_after_10000_keys"] = r.heapDelta
 		}
-		run.Add(common.App("KResidue", common.Nat(r.nkeys), common.Nat(r.held), common.Nat(r.qc)), d, r.nkeys >= 2)
+		run.Add(common.App("KResidue", common.Nat(r.nkeys), common.Nat(r.held), common.Nat(r.qc), common.Nat(r.entries)), d, r.nkeys >= 2)
+		if stuckOps.Load() > 0 {
+			stuckMu.Lock()
+			idx := run.Meta.Evaluations - 1
+			run.Violate(idx, "released by unlock or TTL / no waiter left blocked", "lock_operation_did_not_return", "a Lock/Unlock history on one key did not return within 5 s: "+stuckWhat)
+			stuckMu.Unlock()
+			break
+		}
 		run.Hist(fmt.Sprintf("keys_1e%d", len(fmt.Sprint(r.nkeys))-1))
 		for k, v := range r.ops {
 			run.HistN("op_"+k, v)
